@@ -368,6 +368,18 @@ func (c *wctx) exprN(x ast.Expr, pre *[]wbind) wval {
 		if v, ok := c.lookupConst(c.f.p, n.Name); ok {
 			return v
 		}
+		if fd, ok := c.f.p.funcs[n.Name]; ok && fd.Recv == nil {
+			// a function used as a value
+			cal := c.f.m.callee(c.f.p, n.Name)
+			if cal.effect || len(cal.results) != 1 {
+				refuse("%s: the function %s is used as a value (it can panic or has several results)", c.at(n), n.Name)
+			}
+			call := cal.lean
+			for _, s := range cal.specials {
+				call += " " + c.special(s)
+			}
+			return wval{typ: "func(" + strings.Join(cal.params, ",") + ")" + cal.results[0], expr: "(" + call + ")"}
+		}
 		if c.f.p.vars[n.Name] {
 			refuse("%s: the package variable %s is read (process-global state is outside the reading)", c.at(n), n.Name)
 		}
